@@ -577,7 +577,30 @@ func before(a, b ssa.Instruction) bool {
 	if pa.b == pb.b {
 		return pa.i < pb.i
 	}
-	return fwdReach(pa.b, pb.b) && !fwdReach(pb.b, pa.b)
+	return anyReach(pa.b, pb.b) && !fwdReach(pb.b, pa.b)
+}
+
+// anyReach: reachability over all edges (including loop back edges).
+func anyReach(from, to *ssa.BasicBlock) bool {
+	if from == to {
+		return true
+	}
+	seen := map[*ssa.BasicBlock]bool{from: true}
+	st := []*ssa.BasicBlock{from}
+	for len(st) > 0 {
+		b := st[len(st)-1]
+		st = st[:len(st)-1]
+		for _, s := range b.Succs {
+			if s == to {
+				return true
+			}
+			if !seen[s] {
+				seen[s] = true
+				st = append(st, s)
+			}
+		}
+	}
+	return false
 }
 
 // dominatesInstr: a dominates b (a executes before b on every path to b).
@@ -1093,7 +1116,12 @@ func leadsToReturn(b *ssa.BasicBlock, depth int) bool {
 
 // extraConds lists the branch conditions b depends on that are neither loop
 // headers nor error checks (i.e. genuine data/config conditions).
-func extraConds(cd *cdInfo, b *ssa.BasicBlock) []string {
+func extraConds(cd *cdInfo, b *ssa.BasicBlock) []string { return extraCondsX(cd, b, false) }
+
+// extraCondsEE additionally ignores early exits (`if bad { return ... }`).
+func extraCondsEE(cd *cdInfo, b *ssa.BasicBlock) []string { return extraCondsX(cd, b, true) }
+
+func extraCondsX(cd *cdInfo, b *ssa.BasicBlock, allowEarlyExit bool) []string {
 	var out []string
 	seen := map[string]bool{}
 	for _, d := range cdChain(cd, b) {
@@ -1105,7 +1133,7 @@ func extraConds(cd *cdInfo, b *ssa.BasicBlock) []string {
 			continue
 		}
 		// early exit: the edge not taken towards b leaves the function
-		if leadsToReturn(d.b.Succs[1-d.succ], 3) {
+		if allowEarlyExit && leadsToReturn(d.b.Succs[1-d.succ], 3) {
 			continue
 		}
 		a, neg := condLit(iff.Cond)
@@ -1119,4 +1147,99 @@ func extraConds(cd *cdInfo, b *ssa.BasicBlock) []string {
 	}
 	sort.Strings(out)
 	return out
+}
+
+// ---------- flattened call events (interprocedural order) ----------
+
+// evRef is a call reached from a root function through a chain of static
+// calls into module functions: chain[0] is an instruction of the root, the
+// last element is the event call itself.
+type evRef struct {
+	chain []ssa.CallInstruction
+}
+
+func (e evRef) call() ssa.CallInstruction { return e.chain[len(e.chain)-1] }
+
+// flattenCalls collects calls satisfying pred reachable from root through static module calls (depth-bounded).
+func flattenCalls(root *ssa.Function, depth int, pred func(ssa.CallInstruction) bool) []evRef {
+	var out []evRef
+	var rec func(fn *ssa.Function, prefix []ssa.CallInstruction, d int, seen map[*ssa.Function]bool)
+	rec = func(fn *ssa.Function, prefix []ssa.CallInstruction, d int, seen map[*ssa.Function]bool) {
+		for _, ci := range callInstrs(fn) {
+			ch := append(append([]ssa.CallInstruction{}, prefix...), ci)
+			if pred(ci) {
+				out = append(out, evRef{ch})
+			}
+			if d > 0 {
+				if _, callee := calleeOf(ci); callee != nil && inModule(callee) && !seen[callee] && callee.Blocks != nil {
+					seen[callee] = true
+					rec(callee, ch, d-1, seen)
+					delete(seen, callee)
+				}
+			}
+		}
+	}
+	rec(root, nil, depth, map[*ssa.Function]bool{root: true})
+	return out
+}
+
+// evBefore: a precedes b in the flattened program order.
+func evBefore(a, b evRef) bool {
+	for i := 0; i < len(a.chain) && i < len(b.chain); i++ {
+		if a.chain[i] != b.chain[i] {
+			return before(a.chain[i], b.chain[i])
+		}
+	}
+	return false
+}
+
+// evConds: extra (non-loop, non-error, non-early-exit) conditions along the chain.
+func evConds(e evRef) []string {
+	var out []string
+	for _, ci := range e.chain {
+		fn := ci.Parent()
+		out = append(out, extraConds(controlDeps(fn), ci.Block())...)
+	}
+	return out
+}
+
+// errChecked: the error result of call ci is tested and the non-nil edge returns.
+func errChecked(ci ssa.CallInstruction) bool {
+	v, ok := ci.(ssa.Value)
+	if !ok {
+		return false
+	}
+	var errVals []ssa.Value
+	if v.Type().String() == "error" {
+		errVals = append(errVals, v)
+	}
+	if refs := v.Referrers(); refs != nil {
+		for _, r := range *refs {
+			if ex, ok := r.(*ssa.Extract); ok && ex.Type().String() == "error" {
+				errVals = append(errVals, ex)
+			}
+		}
+	}
+	for _, ev := range errVals {
+		refs := ev.Referrers()
+		if refs == nil {
+			continue
+		}
+		for _, r := range *refs {
+			if bo, ok := r.(*ssa.BinOp); ok && (bo.Op == token.NEQ || bo.Op == token.EQL) && isNilConst(bo.Y) {
+				if br := bo.Referrers(); br != nil {
+					for _, u := range *br {
+						if iff, ok := u.(*ssa.If); ok && isErrCheck(iff) {
+							return true
+						}
+					}
+				}
+			}
+			// returned directly: `return f()`
+			if _, ok := r.(*ssa.Return); ok {
+				return true
+			}
+		}
+	}
+	return false
 }
